@@ -17,12 +17,12 @@ CHECKS = {
     "C07": ("serialize output validated against serialization_schema by an independent validator under the global exclude settings", "7 C07"),
     "C08": ("check-only / input-returning variants proved to return the input itself and the pass-through node proved equivalent to its fallback on non-instances (node contracts); option equivalences (no_copy, constructors override, precomputed methods, check_type, pass-through flags) by bounded pairwise comparison", "7 C08"),
     "C09": ("ghost invariant `every registered cache cleared after every mutation` proved on reset(), cache(), CacheAwareDict.__setitem__/__delitem__ and ResetCache.__setattr__, so by induction on the history no operation leaves a stale cache; an exhaustive AST scan forces every configuration root through one of these mutators; bounded history driver compares observations with a cold start", "7 C09"),
-    "C10": ("generated validator programs: run set, order, merge and construction compared with the statement's rules", "7 C10"),
+    "C10": ("validate() proved for every list of validators and object (ghost log of the validators invoked): run at most once, in list order, every validator up to the first failing one that discards fields, after it exactly the later validators none of whose dependencies is discarded, returns iff every validator that ran succeeded, one merged ValidationError otherwise, and termination of the recursion (decreasing list length); the gating segment of ObjectMethod.deserialize (who is a candidate, who is invalid, mock vs construction, validate called once) proved in the thorough tier; dependency discovery, yielded paths and the whole pipeline by the bounded driver over generated validator programs", "7 C10, 12.2"),
     "C11": ("external-name function of the statement compared on every view (deserialize, serialize, schemas, error locations, GraphQL)", "7 C11"),
-    "C12": ("conversion node contracts (deserialize(T,d) = f(deserialize(S,d)), rejects exactly what S rejects) proved; placement / inheritance / schema rules by the commuting-square driver", "7 C12"),
+    "C12": ("conversion node contracts proved for all data and converter outcomes: deserialize(T,d) = f(deserialize(S,d)), rejects exactly what S rejects, ValueError only caught for catch_value_error converters, several deserializers tried in order (first whose source accepts and whose converter does not refuse), serialize(T,v) = serialize(U, g(v)), and default_serialization returns the nearest inheritable serializer of the MRO; placement (dynamic / field / sub-conversion), generic substitution and schema rules by the commuting-square driver", "7 C12, 12.2"),
     "C13": ("Optional / Union / by-type / discriminator node contracts proved against try-each-alternative semantics (accept iff some alternative accepts, image of an accepting alternative, exact discriminator errors); selection guards and serialization side by the bounded driver", "7 C13"),
     "C14": ("coerce() proved against the documented table and to raise only ValidationError; CoercerMethod / Optional / Literal coercion branches proved to re-check the coerced value and to only widen; whole-type monotonicity by the bounded driver", "7 C14"),
-    "C15": ("operation sequences on with_fields_set classes against a reference model of the tracked set", "7 C15"),
+    "C15": ("whole-view postconditions over the field-set object proved for the methods installed by with_fields_set (__new__: fresh empty set; __init__: previous + passed parameters - InitVars + init=False / default_as_set fields; __setattr__: exactly that name added), for set_fields / unset_fields / fields_set / get_field_name, for apischema.dataclasses.replace (copy's set = original's + changed real fields) and for the exclude_unset rule of ComplexField.update_result; the computation of the init=False / default_as_set table in with_fields_set's own body and the deserialize-to-constructor link by the bounded driver (operation sequences against a reference model of the tracked set)", "7 C15, 12.2"),
     "C16": ("exhaustive small-scope enumeration of ordering specifications against the statement's placement function on the three views", "7 C16"),
     "C17": ("well-formedness / closure / extraction rules checked on generated type graphs x options x versions", "7 C17"),
     "C18": ("the draft 2019-09 / draft-07 rewrites and isolate_ref proved to be the exact documented key mapping with fresh result and untouched input (vocabulary postconditions); nesting-level application and validator agreement per dialect by the bounded driver", "7 C18"),
